@@ -26,9 +26,13 @@ ASSUMPTIONS = ['input without NUL bytes', 'programs over atoms 1..2^31-1, int-ra
                'a trailing #step. at end of input opens no step (documented)']
 TECHNIQUE = 'Coq proof about an executable model (reader over the abstract stream + printer) + differential correspondence with the implementation'
 DESIGN_REF = 'DESIGN.md section 5, C10'
-LEVEL_TEXT = ('Machine-checked proof (Coq) about a model of AspifTextInput over the abstract stream (refined by BufferedStream per C09); '
-              'model tied to the code by differential correspondence on printed programs under random spellings/layouts and on malformed texts.')
-LEVEL_NOTE = 'Trusted: Coq kernel, extraction (cross-checked), harness, translator, python oracle; RuleBuilder modelled by its delivered values.'
+LEVEL_TEXT = ('Machine-checked proofs (Coq) about a model of AspifTextInput over the abstract stream (refined by BufferedStream per C09): '
+              'round trip for EVERY text of a valid program (relational grammar = all atom spellings, all white-space layouts, comments and stray dots '
+              'between statements, optional parts present or absent) and for a concrete printer print_text sigma l for all sigma, l; layout independence; '
+              'for EVERY byte list: consumer contract of the delivered calls, no open step when accepted, no fuel exhaustion of the model loops. '
+              'Model tied to the code by differential correspondence on printed programs under random spellings/layouts and on malformed texts.')
+LEVEL_NOTE = ('Trusted: Coq kernel, extraction (cross-checked), harness, translator, python oracle; RuleBuilder modelled by its delivered values (C11); '
+              'boundaries of the grammar relation: strings without CR/NUL, comment lines end with a line break, text after "#step." not empty.')
 
 HEU = ['level', 'sign', 'factor', 'init', 'true', 'false']
 EXT = {0: 'free', 1: 'true', 2: 'false', 3: 'release'}
@@ -139,17 +143,29 @@ def dir_toks(rnd, c):
     raise ValueError(c)
 
 
+def comment_line(rnd):
+    """a comment line, its line end and the white space (blank lines, indentation) that may follow it"""
+    return '%' + rnd.choice(['', ' comment', ' a :- b.', '#step.', '#incremental.', ' "x']) + rnd.choice(['\n', '\r\n', '\r']) + \
+        rnd.choice(['', '', '\n', ' ', '\t ', '\n\n  ', '\r\n '])
+
+
 def filler(rnd):
-    r = rnd.random()
-    if r < 0.15:
-        return '%' + rnd.choice(['', ' comment', ' a :- b.', '#step.', ' "x']) + rnd.choice(['\n', '\r\n', '\r'])
-    if r < 0.22:
-        return '.' + rnd.choice(WS)
-    return ''
+    """what may stand between statements: comment lines (followed by white space) and stray dots"""
+    out = ''
+    while True:
+        r = rnd.random()
+        if r < 0.15:
+            out += comment_line(rnd)
+        elif r < 0.22:
+            out += '.' + rnd.choice(WS)
+        else:
+            return out
 
 
 def print_text(rnd, prog, plain=False):
-    """prog: calls incl. init/begin/end.  plain: canonical layout (one blank between tokens)."""
+    """prog: calls incl. init/begin/end.  plain: canonical layout (one blank between tokens).
+    Layouts put white space / blank lines / comment lines (each possibly followed by white space) before the first
+    token - also before '#incremental' -, between statements, before '#step' and after '#step.'."""
     out = []
     inc = False
     nstep = 0
@@ -158,12 +174,14 @@ def print_text(rnd, prog, plain=False):
             inc = bool(c[1])
             if not plain:
                 out.append(rnd.choice(WS))
-                while rnd.random() < 0.2:
-                    out.append('%' + rnd.choice(['', ' hello', '#incremental.']) + '\n')
+                while rnd.random() < 0.3:
+                    out.append(comment_line(rnd))
             if inc:
                 out += ['#incremental', '' if plain else rnd.choice(WS), '.', '\n' if plain else rnd.choice(WS)]
         elif c[0] == 2:
             if nstep > 0:
+                if not plain:
+                    out.append(filler(rnd))
                 out += ['#step', '' if plain else rnd.choice(WS), '.', '\n' if plain else rnd.choice(WS)]
             nstep += 1
         elif c[0] == 3:
@@ -372,6 +390,17 @@ FIXED_TEXT = ['#output "  a b" : x1.', 'a :- not\tb.', 'a :- not\nb.', 'a :- 1 {
               '#project.', '#project{}.', '#assume.', '#minimize{}.', '#minimize{}@', 'not a.', '{not a}.', 'a :- -1{b=1,not c=2}.', 'a:-b\r\n.\r%x\rb.']
 
 
+# texts with their program: white space / blank lines after leading comment lines, comments around #incremental and #step
+P_AB = [(1, True), (2,), (4, 0, [1], []), (3,), (2,), (4, 0, [2], []), (3,)]
+FIXED_PAIRS = [
+    ('% c\n\n#incremental.\na.\n#step.\nb.', P_AB),
+    ('% c\n  #incremental. a. #step. b.', P_AB),
+    ('% c\n%d\n \n#incremental.\n% e\n \n a.\n% f\n\t#step.\n% g\n b.\n% h\n', P_AB),
+    ('\n\n% c\r\n\r\n#incremental .\r\n a .\r\n#step .\r\n b .\r\n', P_AB),
+    ('% c\n\n a.', [(1, False), (2,), (4, 0, [1], []), (3,)]),
+]
+
+
 def mutate_text(rnd, t):
     if not t:
         return t
@@ -396,6 +425,8 @@ def gen(seed, tier):
         out.append((mk_case(print_text(rnd, p, plain=True), p), {'kind': 'fixed-valid-plain'}))
         for _ in range(3):
             out.append((mk_case(print_text(rnd, p), p), {'kind': 'fixed-valid-layout'}))
+    for t, p in FIXED_PAIRS:
+        out.append((mk_case(t, p), {'kind': 'fixed-valid-text'}))
     for t in FIXED_TEXT:
         out.append((mk_case(t), {'kind': 'fixed-text'}))
     while len(out) < total:
